@@ -82,6 +82,8 @@ type Case struct {
 	Thorough bool          `json:"thorough"` // generated with the thorough-tier size distribution
 	OneP     bool          `json:"onep"`     // run the call with GOMAXPROCS(1): a spawned goroutine starts only when its spawner blocks or yields,
 	// which opens the windows between eg.Go and the goroutine's first instruction (cancellation landing in between)
+	Barrier  bool          `json:"barrier"`  // FindSuccessors (set) lines up the tasks that are inside it (a cyclic barrier of min(K,8) with a 2 ms
+	// timeout): their first successors are then dispatched, and claimed with TryCommit, at the same instant
 	OwnLim   bool          `json:"ownlim"`   // CopyGraph through the verif hook with a limiter the harness created: its free permits are read at every event
 }
 
@@ -477,6 +479,31 @@ func (d dstWRef) PushReference(ctx context.Context, t ocispec.Descriptor, rd io.
 	return d.push(ctx, t, rd, ref)
 }
 
+// barrier is a cyclic barrier with a timeout (a straggler releases nobody and waits at most 2 ms).
+type barrier struct {
+	mu   sync.Mutex
+	n    int
+	size int
+	ch   chan struct{}
+}
+
+func (b *barrier) wait() {
+	b.mu.Lock()
+	b.n++
+	if b.n >= b.size {
+		close(b.ch)
+		b.ch, b.n = make(chan struct{}), 0
+		b.mu.Unlock()
+		return
+	}
+	ch := b.ch
+	b.mu.Unlock()
+	select {
+	case <-ch:
+	case <-time.After(2 * time.Millisecond):
+	}
+}
+
 // ---- running one case ----
 
 // Result is everything observed about one run.
@@ -773,8 +800,16 @@ func Execute(c *Case) *Result {
 		}
 	}
 	if c.FindSucc {
+		var bar *barrier
+		if c.Barrier && !c.Sched {
+			bar = &barrier{size: min(res.Keff, 8), ch: make(chan struct{})}
+		}
 		gopts.FindSuccessors = func(ctx context.Context, f content.Fetcher, d ocispec.Descriptor) ([]ocispec.Descriptor, error) {
-			return content.Successors(ctx, f, d)
+			ss, err := content.Successors(ctx, f, d)
+			if bar != nil && err == nil && len(ss) > 0 {
+				bar.wait()
+			}
+			return ss, err
 		}
 	}
 
